@@ -75,6 +75,23 @@ def order_monitor(c, want_dense):
                          "err_h_over_2": worst["dense_err_h2"] if want_dense else worst["err_h2"],
                          "observed_order": worst["q_obs"] if want_dense else worst["p_obs"], "advertised": target,
                          "rerun": "harness/target/release/ivp-verif-harness order-probe"}, True)
+    # polynomial exactness (crisp): step exact for k ≤ p (C02), interpolant exact for k ≤ q (C07)
+    prow = [r for r in jlines(out) if r.get("kind") == "poly" and not r.get("skipped")]
+    mon["poly_cases"] = len(prow)
+    mon["cases"] += len(prow)
+    mon["distinct"] += len({(r["method"], r["k"], r["h"]) for r in prow})
+    seen = set()
+    for r in prow:
+        bad = (r["dense_err"] > 1e-11) if want_dense else (r["step_err"] > 1e-11)
+        if bad and r["method"] not in seen:
+            seen.add(r["method"])
+            c.violation("implementation-vs-oracle",
+                        "%s: %s does not reproduce the polynomial solution t^%d of y'=%d t^%d (error %.3g)" % (
+                            r["method"], "interpolant" if want_dense else "step", r["k"], r["k"], r["k"] - 1,
+                            r["dense_err"] if want_dense else r["step_err"]),
+                        {"finding_key": "%s-%s-poly" % (r["method"].lower(), "dense" if want_dense else "step"), **r,
+                         "problem": "y' = k t^(k-1), y(x0) = x0^k, one step of size h from exact data",
+                         "rerun": "harness/target/release/ivp-verif-harness order-probe"}, True)
     c.monitors[name] = mon
     c.cov["samples"] += rows[:3]
 
